@@ -1,1 +1,156 @@
-def main : IO Unit := IO.println "driver C09: not built yet"
+import VncModel.Basic.Proto
+import VncModel.Ws.Decoder
+import VncModel.Ws.Codec
+import VncModel.Ws.Handshake
+import VncModel.Ws.Sha1
+/-! Line-protocol driver for the WebSocket model (C09). Same scripts as harness/c09.c (part 1). -/
+open VncModel VncModel.Ws VncModel.Proto
+
+structure DState where
+  c : Ctx := Ctx.init
+  e : Env := { pending := [], sched := [] }
+  cyc : Bool := false
+  toks : List Resp := []      -- schedule as given (for `*`)
+
+def showOpt : Option Nat → String
+  | none => "N"
+  | some n => toString n
+
+def showReq (r : Req) : String :=
+  let o := match r.out with
+    | .data bs => toString bs.length
+    | .again => "E"
+    | .closed => "X"
+    | .fail => "F"
+    | .bad => "BAD"
+  s!"{r.off}:{r.n}:{o}"
+
+def showRes : Res → String
+  | .data bs => s!"ret={bs.length} e=0 d={hex bs}"
+  | .again => "ret=-1 e=EAGAIN d=-"
+  | .closed => "ret=0 e=0 d=-"
+  | .err .eproto => "ret=-1 e=EPROTO d=-"
+  | .err .econnreset => "ret=-1 e=ECONNRESET d=-"
+  | .err .eio => "ret=-1 e=EIO d=-"
+  | .ub => "ret=UB e=UB d=-"
+
+def hex2 (b : Byte) : String := String.ofList [hexChar (b.toNat / 16), hexChar (b.toNat % 16)]
+
+def showCall (c : Ctx) (e : Env) (r : Res) : String :=
+  let reqs := ",".intercalate (e.log.reverse.map showReq)
+  let m := c.mask
+  s!"{showRes r} R=[{reqs}] S={c.st.toNat} nr={c.nRead} hl={c.headerLen} pl={c.payloadLen} " ++
+  s!"np={c.nReadPayload} cl={c.carry.length}:{hex c.carry} wp={showOpt c.writePos} " ++
+  s!"rp={showOpt c.readPos} rl={c.readlen} co={c.contOp.toNat} op={c.opcode.toNat} " ++
+  s!"fin={c.fin.toNat} m={hex2 m.b0}{hex2 m.b1}{hex2 m.b2}{hex2 m.b3}"
+
+def oneRead (s : DState) (len : Nat) : DState × String × Res :=
+  let e0 := { s.e with log := [] }
+  let (c, e, r) := decode s.c e0 len
+  ({ s with c := c, e := e }, showCall c e r, r)
+
+def parseTok (t : String) : Option Resp :=
+  if t = "E" then some .eagain
+  else if t = "X" then some .eof
+  else if t = "F" then some .fail
+  else match t.toNat? with
+    | some (k + 1) => some (.chunk k)
+    | _ => none
+
+def parseLens (ts : List String) : Option (List Nat) :=
+  ts.mapM (fun t => match t.toNat? with | some (n + 1) => some (n + 1) | _ => none)
+
+partial def drainLoop (s : DState) (max calls : Nat) (lens : Array Nat) (acc : List String) :
+    DState × List String :=
+  if calls ≥ max then (s, acc.reverse) else
+  let len := lens[calls % lens.size]!
+  let (s, str, r) := oneRead s len
+  let acc := str :: acc
+  match r with
+  | .data _ => drainLoop s max (calls + 1) lens acc
+  | .again => if s.e.pending.isEmpty then (s, acc.reverse) else drainLoop s max (calls + 1) lens acc
+  | _ => (s, acc.reverse)
+
+/-- splitmix64 of harness/common/vh.h -/
+def vhBytes (seed : UInt64) (n : Nat) : List Byte := Id.run do
+  let mut st : UInt64 := seed * 0x9E3779B97F4A7C15 + 1
+  let mut out : Array Byte := Array.mkEmpty n
+  for _ in [0:n] do
+    st := st + 0x9E3779B97F4A7C15
+    let mut z := st
+    z := (z ^^^ (z >>> 30)) * 0xBF58476D1CE4E5B9
+    z := (z ^^^ (z >>> 27)) * 0x94D049BB133111EB
+    z := z ^^^ (z >>> 31)
+    out := out.push (z &&& 0xff).toUInt8
+  return out.toList
+
+def showEnc : Option (List Byte) → String
+  | none => "-1 -"
+  | some bs => s!"{bs.length} {hex bs}"
+
+def dstep (s : DState) (toks : List String) : DState × List String :=
+  match toks with
+  | ["new"] => ({}, ["ok"])
+  | ["frames", h] =>
+    match unhex? h with
+    | some bs => ({ s with e := { s.e with pending := s.e.pending ++ bs } }, ["ok"])
+    | none => (s, ["bad-op"])
+  | "sched" :: ts =>
+    if ts.isEmpty then (s, ["bad-op"]) else
+    let (body, cyc) := if ts.getLast? = some "*" then (ts.dropLast, true) else (ts, false)
+    match body.mapM parseTok with
+    | some rs =>
+      -- tokens are appended to what is left of the schedule; `*` makes the whole list cyclic
+      let all := s.toks ++ rs
+      let e := { s.e with sched := s.e.sched ++ rs, cycle := if cyc then all else s.e.cycle }
+      ({ s with e := e, toks := all, cyc := cyc }, ["ok"])
+    | none => (s, ["bad-op"])
+  | "read" :: ts =>
+    match parseLens ts with
+    | some (l :: ls) =>
+      let (s, outs) := (l :: ls).foldl (fun (acc : DState × List String) len =>
+        let (s, str, _) := oneRead acc.1 len
+        (s, str :: acc.2)) (s, [])
+      (s, [" ; ".intercalate outs.reverse])
+    | _ => (s, ["bad-len"])
+  | "drain" :: m :: ts =>
+    match m.toNat?, parseLens ts with
+    | some max, some (l :: ls) =>
+      let (s, outs) := drainLoop s max 0 (l :: ls).toArray []
+      (s, [" ; ".intercalate outs])
+    | _, _ => (s, ["bad-len"])
+  | ["enc", b, h] =>
+    match unhex? h with
+    | some bs => (s, [showEnc (match encodeHybi (b != "0") bs with | some [] => some [] | x => x)])
+    | none => (s, ["bad-op"])
+  | ["b64e", h] =>
+    match unhex? h with
+    | some bs => (s, [showEnc (ntopN bs (bs.length * 2 + 8))])
+    | none => (s, ["bad-op"])
+  | ["b64d", h, ts] =>
+    match unhex? h, ts.toNat? with
+    | some bs, some t => (s, [showEnc (pton bs t)])
+    | _, _ => (s, ["bad-op"])
+  | ["sha1", h] =>
+    match unhex? h with
+    | some bs => (s, [hex (Sha1.sha1 bs)])
+    | none => (s, ["bad-op"])
+  | ["hs", h] =>
+    match unhex? h with
+    | some bs =>
+      match handshake Sha1.sha1 bs with
+      | .fail => (s, ["hs fail resp=-"])
+      | .ok resp b64 path _ =>
+        let rest := match encodeHybi b64 (strBytes "RFB 003.008\n") with | some r => r | none => []
+        (s, [s!"hs ok resp={hex resp} rest={hex rest} ws=1 b64={if b64 then 1 else 0} path={hex path}"])
+    | none => (s, ["bad-op"])
+  | ["wx", b, l, sd] =>
+    match l.toNat?, sd.toNat? with
+    | some len, some seed =>
+      match wsWrite (b != "0") (vhBytes (UInt64.ofNat seed) len) with
+      | some w => (s, [s!"wx 1 {hex w}"])
+      | none => (s, ["wx -1 -"])
+    | _, _ => (s, ["bad-op"])
+  | _ => (s, ["bad-op"])
+
+def main : IO Unit := runDriver ({} : DState) dstep
